@@ -51,7 +51,8 @@ Judge(e) ==
       withOj == SelectSeq(oks, LAMBDA g : \E k \in 1..Len(g.as) : g.as[k] = "oj.JSON")
       ref == IF withOj # <<>> THEN withOj[1] ELSE IF oks # <<>> THEN oks[1] ELSE [as |-> <<>>, r |-> "none", tree |-> [t |-> "none"]]
       Own(key) == IF e.tv.g = "custom" THEN [NoDescr EXCEPT !.ctx = "top-custom", !.fk = KindOf(e.tv)] ELSE OwnerOf(pat, key, 1)
-      Fail(g) == IF g.r = "ok" THEN <<>> ELSE <<[i |-> c, kind |-> "fails", as |-> g.as, w |-> g.r, d |-> [NoDescr EXCEPT !.ctx = Trigger(e.tv)],
+      \* r = "unparsed": SEN text that sen.Parse does not read back (C10's property), left out
+      Fail(g) == IF g.r \in {"ok", "unparsed"} THEN <<>> ELSE <<[i |-> c, kind |-> "fails", as |-> g.as, w |-> g.r, d |-> [NoDescr EXCEPT !.ctx = Trigger(e.tv)],
                                                  o |-> OptStr(e.o), m |-> g.m]>>
       Ref(g) == IF g.r # "ok" THEN <<>> ELSE
                 LET dv == Dev(pat, g.tree, NoDescr) IN
